@@ -674,7 +674,7 @@ pub fn all_configs(max_p: u64) -> Vec<SupDesc> {
 pub fn run_c09(opt: &Options) -> i32 {
     let t0 = std::time::Instant::now();
     let (max_p, extra, hist, tables) = if opt.thorough() {
-        (16u64, opt.scaled(6_000), 1_200u64, opt.scaled(200_000))
+        (20u64, opt.scaled(20_000), 1_200u64, opt.scaled(1_000_000))
     } else {
         (10u64, opt.scaled(1_500), 240u64, opt.scaled(60_000))
     };
